@@ -274,6 +274,11 @@ func PairingCheck(api frontend.API, P []G1Affine, Q []G2Affine) error {
 	residueWitness.C1.B2.A0 = hint[10]
 	residueWitness.C1.B2.A1 = hint[11]
 
+	// the residue witness is hinted: it must be non-zero (invertible), otherwise the
+	// accumulator stays zero and the final equality holds whatever the inputs are
+	var residueWitnessInv GT
+	residueWitnessInv.Inverse(api, residueWitness)
+
 	var scalingFactor fields_bls12377.E6
 	// constrain cubicNonResiduePower to be in Fp6
 	scalingFactor.B0.A0 = hint[12]
